@@ -44,7 +44,24 @@ def outJ (o : Except Unit (List (K × Nat))) : Json :=
   | .error _ => .str "error"
   | .ok l => .arr #[.str "ok", .arr (l.map fun kw => Json.arr #[.str kw.1, .num kw.2]).toArray]
 
+def bytesJ (l : List Nat) : Json := .arr (l.map fun (b : Nat) => (Json.num (b : JsonNumber))).toArray
+
 def handle (j : Json) : Except String Json := do
+  if let .ok nj := j.getObjVal? "name" then
+    -- the file names of one key: `cache.name_fn(key)` under the generated scheme and under the pinned one, the
+    -- temporary sibling `_pickle_save` writes to, and the decoding that shows the name determines `repr(key)`
+    let str ← jList jNat (← field nj "str")
+    let repr ← jList jNat (← field nj "repr")
+    let pid ← jNat (← field nj "pid")
+    let key : List Nat × List Nat := (str, repr)
+    let final := defaultName Gen.nameScheme Prod.fst Prod.snd key
+    return Json.mkObj [
+      ("final", bytesJ final),
+      ("plain", bytesJ (defaultName .plainStr Prod.fst Prod.snd key)),
+      ("tmp", bytesJ (tmpName Gen.tmpSep Gen.tmpSuffix final pid)),
+      ("decoded", bytesJ (pctDecode (final.take (final.length - 2)))),
+      ("safe", .bool (pathSafe (tmpName Gen.tmpSep Gen.tmpSuffix final pid) && pathSafe final)),
+      ("partsOk", .bool (tmpPartsOk Gen.tmpSep Gen.tmpSuffix))]
   let mode ← jMode (← field j "mode")
   let tbl ← jList (jPair jNat jNat) (← field j "sizes")
   let size := sizeOf tbl
